@@ -64,7 +64,7 @@ SetTypeFrom(st, ns, t, i) ==
 SetTypeRes(st, ns, t) == IF t \notin Addable THEN Err(st, "ValueError") ELSE SetTypeFrom(st, ns, t, 1)
 
 (* ---- uid(n): n, n_0, n_1, ... n_10, n_70, n_490, ... ---- *)
-UidSteps == <<0, 1, 2, 3, 4, 5, 6, 7, 8, 9, 10, 70, 490, 3430>>
+UidSteps == <<0, 1, 2, 3, 4, 5, 6, 7, 8, 9, 10, 70, 490, 3430, 24010, 168070, 1176490, 8235430, 57648010, 403536070>>
 RECURSIVE UidFrom(_,_,_)
 UidFrom(st, n, j) == IF j > Len(UidSteps) THEN n \o "_overflow"
                      ELSE LET cand == n \o "_" \o ToString(UidSteps[j]) IN
